@@ -218,7 +218,7 @@ def proof_step(pid, cfg, ev):
         ev["theorems"] = names
         res["obligations"] = obligations
         res["discharged"] = obligations if res["ok"] else 0
-        if cfg.get("leanchecker") and ev.get("tier") == "thorough":
+        if cfg.get("leanchecker", True) and ev.get("tier") == "thorough":
             rc, out, dt = run(["lake", "env", "leanchecker", mod], cwd=LEAN, timeout=3000)
             ev["leanchecker"] = {"rc": rc, "s": round(dt, 1)}
             if rc != 0:
@@ -508,7 +508,7 @@ def main(argv):
     cov.update({
         "obligations": pr.get("obligations", 0) or 1,
         "discharged": pr.get("discharged", 0),
-        "checker_cmd": f"cd lean && lake build {cfg['theorems']} && lake env lean <#print axioms of every theorem>" + (" && lake env leanchecker " + cfg['theorems'] if cfg.get('leanchecker') and tier == 'thorough' else ""),
+        "checker_cmd": f"cd lean && lake build {cfg['theorems']} && lake env lean <#print axioms of every theorem>" + (" && lake env leanchecker " + cfg['theorems'] if cfg.get('leanchecker', True) and tier == 'thorough' else ""),
         "trusted_base": props.TRUSTED_BASE + cfg.get("trusted_extra", []),
         "evaluations": evaluations,
         "distinct_nontrivial": distinct,
